@@ -114,16 +114,14 @@ pub struct ListSpace {
     pub note: String,
     pub files: Vec<(Vec<Line>, Term)>,
     pub wide: bool,
+    /// files per work item (computed once)
+    pub chunk: std::sync::OnceLock<usize>,
 }
 const LIST_CHUNK: usize = 64;
 impl ListSpace {
     /// heavy families (files of more than 40 lines) get one file per work item
     fn chunk(&self) -> usize {
-        if self.files.iter().any(|(l, _)| l.len() > 40) {
-            1
-        } else {
-            LIST_CHUNK
-        }
+        *self.chunk.get_or_init(|| if self.files.iter().any(|(l, _)| l.len() > 40) { 1 } else { LIST_CHUNK })
     }
 }
 impl Space for ListSpace {
@@ -258,6 +256,8 @@ pub fn ms_c() -> ListSpace {
         Some(Line::Header { key: "sourceFile", value: Some("G.java") }),
         Some(Line::Header { key: "sourceFile", value: None }),
     ];
+    // near misses of the one documented magic file name: ordinary file names, to be reported verbatim
+    let magic_near: [S; 8] = ["D8$$SyntheticClass", "R8$SyntheticClass", "R8$$SyntheticClass2", "xR8$$SyntheticClass", "r8$$syntheticclass", "R8$$Synthetic", "$$SyntheticClass", "R8$$SyntheticClass.java"];
     let mut entry_alpha = Vec::new();
     for c in [None, Some("q.F"), Some("q.F$G")] {
         entry_alpha.push(method(None, c, "p", "", Orig::None, "m"));
@@ -325,11 +325,19 @@ pub fn ms_c() -> ListSpace {
             }
         }
     }
+    for b in blocks {
+        for mn in magic_near {
+            for c in [None, Some("q.F$G")] {
+                files.push((vec![b, Line::SourceFile(mn), method(Some((1, 2)), c, "q", "", Orig::SE(3, 4), "m"), method(None, None, "p", "", Orig::None, "m")], Term::Lf));
+            }
+        }
+    }
     ListSpace {
         name: "MS-C file rule".into(),
-        note: "4 class blocks x 5 sourceFile header forms (none, JSON S.kt, JSON R8$$SyntheticClass, '# sourceFile: G.java', valueless '# sourceFile') x 4 positions (before class line, after it, between entries, after last entry) x optional second header before the last entry x all sequences of 1..=3 entries over {own, q.F, q.F$G} x {no range, 1:2->3:4}".into(),
+        note: "4 class blocks x 5 sourceFile header forms (none, JSON S.kt, JSON R8$$SyntheticClass, '# sourceFile: G.java', valueless '# sourceFile') x 4 positions (before class line, after it, between entries, after last entry) x optional second header before the last entry x all sequences of 1..=3 entries over {own, q.F, q.F$G} x {no range, 1:2->3:4}; plus 8 near misses of the magic name R8$$SyntheticClass as ordinary file names".into(),
         files,
         wide: false,
+        chunk: Default::default(),
     }
 }
 
@@ -419,6 +427,7 @@ pub fn ms_d(thorough: bool) -> ListSpace {
         note: "pool of 14 adversarially similar names; all ordered selections (with repetition) of <=3 as class tables and as method tables; subsets of size 4-5 ascending and descending; large-N family N in {0,1,2,3,7,8,9,63,64,65,300} x 3 variants".into(),
         files,
         wide: false,
+        chunk: Default::default(),
     }
 }
 
@@ -509,7 +518,7 @@ pub fn ms_e(level: usize) -> ListSpace {
                 }
             }
         }
-        if thorough && b.len() <= 3 {
+        if thorough && b.len() <= 2 {
             for p1 in 0..=b.len() {
                 for p2 in p1..=b.len() {
                     for n1 in &noise {
@@ -555,7 +564,30 @@ pub fn ms_e(level: usize) -> ListSpace {
         note: "every MS-B file of <=3 lines and MS-C files, under: each terminator policy (CRLF, CR, LF without final newline, blank line after every line); one noise line under LF (and, for bases of <= 2 lines, under every terminator policy) (blank, 'garbage', '    garbage', 'a -> b', '  int x -> y', invalid UTF-8, '\"}', unterminated sourceFile header) at every position (thorough: two); every permutation of class blocks with pairwise distinct names".into(),
         files,
         wide: false,
+        chunk: Default::default(),
     }
+}
+
+/// MS-E2: runs of N identical noise lines (an implementation that gives up after many bad lines would lose the rest)
+pub fn ms_e_runs(level: usize) -> ListSpace {
+    let mut files = Vec::new();
+    {
+        let base = vec![class("p.A", "a"), method(Some((1, 2)), None, "p", "", Orig::SE(3, 4), "m"), class("p.B", "b"), method(None, None, "q", "int", Orig::None, "n")];
+        for n in [100usize, 1000, 1001, 10000, 10001, 65536] {
+            if level == 0 && n > 1001 {
+                continue;
+            }
+            for nz in [&b"garbage"[..], b"    1:void broken() -> x"] {
+                for pos in [0usize, 2, 4] {
+                    let mut f: Vec<Line> = base[..pos].to_vec();
+                    f.extend(std::iter::repeat(Line::Noise(nz)).take(n));
+                    f.extend_from_slice(&base[pos..]);
+                    files.push((f, Term::Lf));
+                }
+            }
+        }
+    }
+    ListSpace { name: "MS-E2 noise runs".into(), note: "runs of 100..65536 identical noise lines before, between and after two class blocks".into(), files, wide: false, chunk: Default::default() }
 }
 
 fn permute(p: &mut Vec<usize>, k: usize, f: &mut dyn FnMut(&[usize])) {
@@ -749,6 +781,27 @@ fn oracle_c01<'u>(model: &'u Model, uni: &'u Universe, subjects: &[&'u dyn Subj;
             }
         }
     }
+    // names with invisible affixes: one frame query each
+    for class in &uni.classes_affixed {
+        for method in uni.methods.iter().take(3) {
+            c01_one(model, subjects, class, method, uni.lines_short.last().copied().unwrap_or(1), None, &mut mout, &mut sout, acc, size, case);
+        }
+    }
+    for method in &uni.methods_affixed {
+        for class in uni.classes.iter().take(3) {
+            c01_one(model, subjects, class, method, uni.lines_short.last().copied().unwrap_or(1), None, &mut mout, &mut sout, acc, size, case);
+        }
+    }
+    // frame files derived from the mapping's own class names
+    for file in &uni.files_derived {
+        for class in &uni.classes {
+            for method in &uni.methods {
+                for &line in &uni.lines_short {
+                    c01_one(model, subjects, class, method, line, Some(file), &mut mout, &mut sout, acc, size, case);
+                }
+            }
+        }
+    }
 }
 
 fn oracle_c03(model: &Model, uni: &Universe, subjects: &[&dyn Subj; 3], acc: &mut Acc, size: usize, case: &CaseFn<'_>) {
@@ -783,6 +836,35 @@ fn oracle_c03(model: &Model, uni: &Universe, subjects: &[&dyn Subj; 3], acc: &mu
 fn oracle_c04(model: &Model, uni: &Universe, subjects: &[&dyn Subj; 3], acc: &mut Acc, size: usize, case: &CaseFn<'_>) {
     let mut sout: Vec<Fr<'_>> = Vec::new();
     let labels = LABELS;
+    // names with invisible affixes / changed case: class and method lookups
+    for class in &uni.classes_affixed {
+        let exp = model.class(class);
+        for (i, s) in subjects.iter().enumerate() {
+            acc.observations += 2;
+            let got = s.remap_class(class);
+            let gm = uni.methods.first().and_then(|m| s.remap_method(class, m));
+            let em = uni.methods.first().and_then(|m| model.method(class, m));
+            if got != exp || gm != em {
+                acc.violation(format!("{}:class-affixed", labels[i]), size, || {
+                    (format!("lookup of {:?} (a known name with an invisible affix / changed case) on {}: class expected {:?} got {:?}; method expected {:?} got {:?}", class, labels[i], exp, got, em, gm), case(json!({"kind":"class","class":class,"subject":labels[i]}), json!(exp), json!(got)))
+                });
+            }
+        }
+    }
+    for method in &uni.methods_affixed {
+        for class in uni.classes.iter().take(4) {
+            let exp = model.method(class, method);
+            for (i, s) in subjects.iter().enumerate() {
+                acc.observations += 1;
+                let got = s.remap_method(class, method);
+                if got != exp {
+                    acc.violation(format!("{}:method-affixed", labels[i]), size, || {
+                        (format!("remap_method({:?},{:?}) on {}: expected {:?} got {:?}", class, method, labels[i], exp, got), case(json!({"kind":"method","class":class,"method":method,"subject":labels[i]}), json!(format!("{:?}", exp)), json!(format!("{:?}", got))))
+                    });
+                }
+            }
+        }
+    }
     for class in uni.all_classes() {
         let exp = model.class(class);
         acc.outcome(h64(&("class", exp)), exp.is_some());
